@@ -49,7 +49,7 @@ LEVEL_TEXT = (
     "Fault enumeration: the real fetch_url ran against scripted loopback origins for every single-fault object script "
     "of the grammar (each fault x HEAD-probe / pre-signed URL x single-GET / parallel path) plus seeded random "
     "combinations of 2-4 faults; monitors at the origins, the validator, the aiohttp stream reader, the decompressor "
-    "and the vgi_rpc loggers judged each fetch. Held means none of the listed events in those executions."
+    "and the vgi_rpc loggers judged each fetch; the scripts include redirects served only after 1-3 dropped connections and unframed bodies cut half way. Held means none of the listed events in those executions."
 )
 LEVEL_NOTE = "aiohttp/yarl trusted to put on the wire the URL they were given; zstandard/gzip used as independent decoders; hedging is timing dependent (observed count reported)"
 CATEGORY = "fault_enumeration"
